@@ -77,7 +77,7 @@ class Engine:
 
         def run1(q):
             h = hashlib.sha1(q["smt2"].encode()).hexdigest()[:12]
-            f = os.path.join(qdir, "q_%s.smt2" % h)
+            f = os.path.join(qdir, "q_%s_%x.smt2" % (h, id(q)))  # unique per query object (identical queries run concurrently)
             with open(f, "w") as fh:
                 fh.write(q["smt2"])
             cap = min(cap_s, 25) if q["expect"] == "sat" else cap_s
@@ -85,7 +85,7 @@ class Engine:
             procs = {}
             for name, cmd in (("z3", ["/usr/bin/z3", "-T:%d" % cap, f]),
                               ("cvc5", ["cvc5", "--lang", "smt2", "--produce-models", "--tlimit=%d" % (cap * 1000), f])):
-                procs[name] = subprocess.Popen(cmd, stdout=subprocess.PIPE, stderr=subprocess.STDOUT, text=True)
+                procs[name] = subprocess.Popen(cmd, stdout=subprocess.PIPE, stderr=subprocess.STDOUT, text=True, errors="replace")
             outs = {}
             first_done = None
             while len(outs) < len(procs):
